@@ -489,9 +489,10 @@ Section Parsers.
     second <- rd_se ;;
     ret (t8, spf, lists, second).
 
-  Definition parse_pps (spsmap : N -> option N) : M pps :=
-    hdr <- rd 8 ;;
-    if negb (N.land (u8 hdr) 31 =? 8) then fail else     (* ErrNotPPS *)
+  (* ParsePPSNALUnit up to redundant_pic_cnt_present_flag *)
+  Definition parse_pps_pre
+    : M (N * N * bool * bool * N * (N * list N * list N * list N * bool * N * N * list N)
+         * N * N * bool * N * Z * Z * Z * bool * bool * bool) :=
     id <- rd_ue ;;
     spsid <- rd_ue ;;
     ecm <- rd_flag ;;
@@ -499,7 +500,6 @@ Section Parsers.
     nsg <- rd_ue ;;
     if 7 <? nsg then fail else                           (* guard d2db25a *)
     sg <- parse_pps_slice_groups nsg ;;
-    let '(mt, rl, tl, br, dir, rate, psmu, ids) := sg in
     l0 <- rd_ue ;;
     l1 <- rd_ue ;;
     wp <- rd_flag ;;
@@ -510,6 +510,14 @@ Section Parsers.
     dfc <- rd_flag ;;
     cip <- rd_flag ;;
     rpc <- rd_flag ;;
+    ret (id, spsid, ecm, bfp, nsg, sg, l0, l1, wp, wb, qp, qs, cqp, dfc, cip, rpc).
+
+  (* from MoreRbspData to the end *)
+  Definition parse_pps_post (spsmap : N -> option N)
+      (t : N * N * bool * bool * N * (N * list N * list N * list N * bool * N * N * list N)
+           * N * N * bool * N * Z * Z * Z * bool * bool * bool) : M pps :=
+    let '(id, spsid, ecm, bfp, nsg, sg, l0, l1, wp, wb, qp, qs, cqp, dfc, cip, rpc) := t in
+    let '(mt, rl, tl, br, dir, rate, psmu, ids) := sg in
     more <- rd_more ;;
     tail <- (if more then parse_pps_tail spsmap (u32 spsid) else ret (false, false, [], 0%Z)) ;;
     let '(t8, spf, lists, second) := tail in
@@ -522,6 +530,12 @@ Section Parsers.
     if negb e2 then fail else                            (* "not at end after reading rbsp_trailing_bits" *)
     ret (mkPps (u32 id) (u32 spsid) ecm bfp nsg mt rl tl br dir rate psmu ids l0 l1 wp wb qp qs cqp
                dfc cip rpc t8 spf lists second).
+
+  Definition parse_pps (spsmap : N -> option N) : M pps :=
+    hdr <- rd 8 ;;
+    if negb (N.land (u8 hdr) 31 =? 8) then fail else     (* ErrNotPPS *)
+    t <- parse_pps_pre ;;
+    parse_pps_post spsmap t.
 
 End Parsers.
 
